@@ -467,4 +467,25 @@ theorem turnsRun_any_payload (r1 r2 r3 r4 : List (String × Int)) :
     answer_payload_irrelevant _ _ _ "C" 1 _ hC rfl r3, answer_payload_irrelevant _ _ _ "C" 2 _ hC rfl r4]
   rfl
 
+/-! ## three tokens (a test of the model by evaluation) -/
+
+/-- `turnsProc` with a third flow from the fork into the sub-process node -/
+def turnsProc3 : Proc :=
+  { turnsProc with
+    nodes := turnsProc.nodes.map (fun n =>
+      if n.id == "F" then { n with outs := ["f2", "f3", "f3b"] }
+      else if n.id == "U" then { n with ins := ["f2", "f3", "f3b"] } else n),
+    flows := turnsProc.flows ++ [{ id := "f3b", src := "F", dst := "U", cond := .none }] }
+
+/-- one activation at a time, three times: `T` is requested once per turn, two tokens wait first, then one, then none; the
+invariant `OneEach` is visible in every state (one parent token in `subs` while an activation runs) -/
+example :
+    let s0 := start Cfg.ideal turnsProc3 []
+    let s1 := answer Cfg.ideal turnsProc3 s0 "T" 1 (.ok [])
+    let s2 := answer Cfg.ideal turnsProc3 s1 "T" 2 (.ok [])
+    let s3 := answer Cfg.ideal turnsProc3 s2 "T" 3 (.ok [])
+    [s0, s1, s2, s3].map (fun s => (s.obs, s.parked.length, s.subs.length, s.outOfScope)) =
+      [([.req "T"], 2, 1, none), ([.complete "E", .req "C", .req "T"], 1, 1, none),
+       ([.complete "E", .req "C", .req "T"], 0, 1, none), ([.complete "E", .req "C"], 0, 0, none)] := by decide
+
 end Bpmn.Props.C12Turns
